@@ -1,7 +1,8 @@
 """C16 — the state dump shows the true machine state, completely and parseably."""
 
-THEOREM_MODULES = ["Hcl.Theorems.C16", "Hcl.Tie.Banks", "Hcl.Tie.PinsDump"]
-THEOREMS = {"Hcl.Tie.Banks": ["Tie.Banks.bankOrder"], "Hcl.Theorems.C16": ["C16_hex_roundtrip", "C16_hexpad_roundtrip", "hexDigits_roundtrip", "C16_memory_text", "C16_memory_tokens",
+THEOREM_MODULES = ["Hcl.Theorems.C16", "Hcl.Theorems.C16ReadBack", "Hcl.Tie.Banks", "Hcl.Tie.PinsDump"]
+THEOREMS = {"Hcl.Theorems.C16ReadBack": ["C16_dump_readback", "C16_registers_readback", "C16_memory_readback", "Dump.state_parse", "Dump.state_readback_error", "Dump.bank_readback", "Spec.DumpFormat.toNat?_toDec"],
+            "Hcl.Tie.Banks": ["Tie.Banks.bankOrder"], "Hcl.Theorems.C16": ["C16_hex_roundtrip", "C16_hexpad_roundtrip", "hexDigits_roundtrip", "C16_memory_text", "C16_memory_tokens",
                                                                 "C16_memory_roundtrip", "C16_memory_rows", "C16_memory_reachable",
                                                                 "C16_bank_text", "C16_bank_registers", "C16_banks_all_printed", "Dump.printedBanks_perm",
                                                                 "Dump.memToks_spec", "Dump.walkKey_key", "Yo.load_sorted", "runN_mem_sorted"],
